@@ -1,6 +1,7 @@
 package main
 
 import (
+	"bytes"
 	"fmt"
 	"math/rand/v2"
 	"strings"
@@ -555,6 +556,24 @@ func (cg *caseGen) floodGrammar(kind int) {
 	cg.names = []string{"S", "A"}
 }
 
+// memoFloodGrammar: S <- Items "x" / Items "y" ; Items <- A+ ; A <- "a" {error}: a span with MANY distinct code-block errors
+// (one per position) that ordinary backtracking parses twice and a memoized parser once (round 17: errors de-duplicated in a
+// bounded look-back window while recording - 16 entries - instead of at the end: the plain parse reports each error twice)
+func (cg *caseGen) memoFloodGrammar() {
+	cg.chCount = 0
+	cg.cur = 0
+	a := un(pvcase.KAct, cg.litOf("a"))
+	cg.dupActs = append(cg.dupActs, a)
+	ch := cg.newChoice()
+	ch.Kids = []*pvcase.Expr{seqOf(refTo("Items"), cg.litOf("x")), seqOf(refTo("Items"), cg.litOf("y"))}
+	cg.rules = []*pvcase.Rule{
+		{Name: "S", Expr: ch},
+		{Name: "Items", Expr: un(pvcase.KPlus, refTo("A"))},
+		{Name: "A", Expr: a},
+	}
+	cg.names = []string{"S", "Items", "A"}
+}
+
 // ------------------------------------------------------------------ cases
 
 func renumber(c *pvcase.Case) {
@@ -748,6 +767,7 @@ func (g *generator) genCase(prof string) ([]*pvcase.Case, *caseGen) {
 	divergent, lrBudget := false, false
 	flood := 0                                     // error flood under a budget: 1 = undecodable bytes, 2 = action errors
 	recFamily := prof == "throw" && g.chance(0.06) // recursive handlers with several labels (floodGrammar's sibling)
+	memoFlood := prof == "memo" && g.chance(0.03)  // a re-parsed span with dozens of distinct code-block errors
 	// a keyword table: dozens of different terminals tried at one offset (the expected set of a failure there lists all)
 	wide := (prof == "core" || prof == "utf8") && g.chance(0.03)
 	switch prof {
@@ -819,6 +839,8 @@ func (g *generator) genCase(prof string) ([]*pvcase.Case, *caseGen) {
 			cg.recHandlerGrammar()
 		case flood != 0:
 			cg.floodGrammar(flood)
+		case memoFlood:
+			cg.memoFloodGrammar()
 		case prof == "lr" || lrBudget:
 			cg.lrGrammar()
 		case wide:
@@ -904,6 +926,12 @@ func (g *generator) genCase(prof string) ([]*pvcase.Case, *caseGen) {
 			in += pickStr(g.r, []string{")", ")", ")", "Q)", ""})
 		}
 		c.Input = []byte(in)
+	}
+	if memoFlood {
+		n := 3 + g.r.IntN(40) // both sides of any small window
+		c.Input = append(bytes.Repeat([]byte("a"), n), pickStr(g.r, []string{"y", "y", "x", "z"})...)
+		o.MaxExpr = 0
+		o.Memoize = true
 	}
 	if flood != 0 {
 		n := 100 + g.r.IntN(160)
